@@ -115,6 +115,50 @@ CHECKS = {
              "is evaluated for orderly closes only. The stall verdict necessarily uses a no-progress limit (5 s, 10 s on the mandatory "
              "sequential re-run); every violation class must reproduce in a sequential re-run. Two genuine defects of the relay are "
              "recorded in known_findings.json (relay_close_loss, relay_noflush)."),
+    "C09": dict(
+        text="spec/TlsPolicy.tla is shaped like xcm_tp_btls.c: a Conf record for the policy part of the socket, InitConf / Apply / Inherit / "
+             "Finalize / ServerOutcome / ConnOutcome / AcceptOutcome transcribed from btls_init, the attribute setters, inherit_tls_conf and "
+             "finalize_tls_conf (EINVAL rules in the code's order), and - stated from the property alone - MustReject(side), Usable(side), "
+             "FailClosed == MustReject => ~Usable over structural tables of a 41-class credential universe (anchoring, validity of leaf and "
+             "CAs, revocation of leaf / intermediate, EKU vs TLS role incl. role reversal, names in SAN / CN). spec/TlsPolicyMC.tla enumerates "
+             "with TLC the cells (placements of every policy attribute in the server / late-set / accept / connect maps x credential classes "
+             "x tls, btls, utls-over-TLS) and checks consistency laws on each. Every selected cell (quick: a deterministic mandatory set + "
+             "seeded sample, ~700; thorough: all ~140 000) is replayed by harness/tlsmx_exec as a real handshake between in-process sockets "
+             "with generated certificates (by file and by value) and spec/TlsPolicyTrace.tla re-evaluates the cell: C09.fail_open (must "
+             "reject, yet finish succeeded or data crossed), C09.einval (invalid combination accepted), C09.errno (rejection not EPROTO).",
+        ref="5/C09", tech="TLA+ decision specification enumerated by TLC; every cell executed as a real TLS handshake and judged by a trace specification",
+        note="Trusted base: TLC + CommunityModules, OpenSSL's own chain verification (modelled as environment SslVerifyOk and compared cell "
+             "by cell - zero differences on the unchanged tree), the generated credentials (their manifest is compared with the tables TLC "
+             "prints on every run). Only the fail-open direction, EINVAL acceptance and the rejection errno are violations; 'policy met but "
+             "rejected' is a note (DESIGN 7.1). Both ends are libxcm (TLS 1.3). A violating cell must repeat when re-run alone."),
+    "C13": dict(
+        text="spec/TConnect.tla transcribes tconnect.c, the establishment part of xcm_tp_btcp.c, xcm_dns_cares.c and timer_mgr.c (tracks, "
+             "timers, resolver query, the application's polling calls, xcm.local_addr binding) for dns.algorithm single / sequential / "
+             "happy_eyeballs; spec/TConnectMC.tla checks with TLC, for every address list over {v4,v6}x{accept,refuse,silent,unreachable} "
+             "up to the bound x resolver behaviour x local address kind x time-outs and every interleaving of polls, resolver answer and "
+             "timer expiries: InvOrder, InvOutcome, InvWhich, InvErrno, InvEtimedout, InvBoundLocal, InvNoHang, InvBudget. Every behaviour "
+             "TLC prints is replayed in virtual time into the real library by harness/tconn_exec (scripted resolver linked instead of "
+             "c-ares, connect() redirected to accepting / refusing / silent loopback targets, bind/connect order recorded) and "
+             "spec/TConnectTrace.tla validates every record (model part + history part: order, outcome, errno, local address, budget, "
+             "hang, crash); plus 32/33-address lists, xcm_server_a on names, blocking mode and a real-clock sample judged against the "
+             "admissible outcome sets TLC printed.",
+        ref="5/C13", tech="TLA+ model checking (TLC) + model-generated schedules replayed in virtual time and validated by a trace specification",
+        note="Trusted base: TLC + CommunityModules; loopback TCP behaves like the envelope (verified at harness start); the scripted "
+             "resolver stands for c-ares (no sorting, no retransmission timers). Real-time bounds are judged only as upper bounds with wide "
+             "slack on a real-clock sample; a hang needs no verdict within a hard watchdog. TLS transports only with failing outcomes."),
+    "C15": dict(
+        text="spec/Threads.tla (PlusCal, one label per shared access in the order of the C code) models the process-wide state: socket id "
+             "counter, eventfd pool (active_fd.c), TLS context cache (ctx_store.c), relaxed-atomic flags, under their mutexes, for 2-4 "
+             "threads; TLC checks mutual exclusion, count = holders, closed/freed exactly at zero and never used after, unique ids, "
+             "idempotent flags, and must refute five deliberately broken variants. Binding: guarded hooks (libxcm/core/verif.h, /repo "
+             "603233c) emit events inside the critical sections; harness/thr_exec runs 8-16 threads over all transports (shared and "
+             "distinct TLS credentials, >100 sockets so that a second eventfd appears, socket hand-over, blocking pairs, cold starts), "
+             "each thread checks its own sequence-numbered deliveries, and spec/ThreadsTrace.tla (EXTENDS Threads) replays the merged "
+             "per-subsystem event order; the same driver is built with ThreadSanitizer and any report is a C15.race event.",
+        ref="5/C15", tech="TLA+/PlusCal model checking (TLC) + trace validation of under-lock hook events from a multi-threaded driver (TSan build)",
+        note="Data-race freedom in the C memory model rests on ThreadSanitizer over the schedules actually executed (DESIGN 9); the "
+             "specification decides the locking protocol and the counts. OpenSSL / c-ares internals are trusted (suppressions limited "
+             "to their frames). First-use races need the cold-start runs and are caught with high probability, not certainty."),
 }
 
 NOT_APPLICABLE = {}
